@@ -133,7 +133,7 @@ def model_of(cfg):
     from .history import full
     c = full(cfg)
     return Model(kind=c['kind'], n_dim=c['n_dim'], K=c['K'], seed=c['mseed'], blob=c['blob'],
-                 prior=c['prior'], vectorized=c['vectorized'])
+                 prior=c['prior'], vectorized=c['vectorized'], smooth=bool(cfg.get('smooth', False)))
 
 
 def _close(s):
